@@ -784,6 +784,122 @@ theorem published_key_follows_every_exchange (c : Env) (before eff : List Effect
   rw [he]
   exact publishedKey_append_completed before prev _ _ hk sig (by intro k s h; cases h) (by intro k s h; cases h)
 
+/-! ## NEWKEYS closes an exchange only if a verified secret is pending — for every message order -/
+
+/-- what reaches a client transport during its life, in any order: the effects of an engine step
+    (`ok` = the step did not raise), or SSH_MSG_NEWKEYS -/
+inductive Ev
+  | step (eff : List Effect) (ok : Bool)
+  | newkeys
+
+/-- client transport: `K` pending or not, exchanges verified, exchanges reported complete -/
+structure Conn where
+  pendingK : Bool := false
+  verified : Nat := 0
+  completed : Nat := 0
+  dead : Bool := false
+  deriving DecidableEq, Repr
+
+def hasSetKH : List Effect → Bool
+  | [] => false
+  | .setKH _ _ :: _ => true
+  | _ :: r => hasSetKH r
+
+def hasActivate : List Effect → Bool
+  | [] => false
+  | .activate :: _ => true
+  | _ :: r => hasActivate r
+
+/-- `_set_K_H` makes a secret pending; `_parse_newkeys` runs `_activate_inbound()` unconditionally, which derives
+    keys from the pending K (`_compute_key` raises when there is none: the session ends), then frees K and
+    reports the exchange complete (completion_event) -/
+def Conn.on (s : Conn) : Ev → Conn
+  | .step eff ok =>
+    if s.dead then s
+    else if ¬ ok then { s with dead := true, pendingK := s.pendingK || hasSetKH eff }
+    else { s with pendingK := s.pendingK || hasSetKH eff,
+                  verified := s.verified + (if hasSetKH eff && hasActivate eff then 1 else 0) }
+  | .newkeys =>
+    if s.dead then s
+    else if s.pendingK then { s with pendingK := false, completed := s.completed + 1 }
+    else { s with dead := true }
+
+/-- the client engines' steps: one that returns normally and called `_set_K_H` also reached
+    `_activate_outbound`, i.e. passed `_verify_key` (the `*_completion_verified` theorems say what that means) -/
+def ClientSteps (evs : List Ev) : Prop :=
+  ∀ eff, Ev.step eff true ∈ evs → hasSetKH eff = true → hasActivate eff = true
+
+private def Inv (s : Conn) : Prop :=
+  s.completed ≤ s.verified ∧ (s.dead = false → s.completed + (if s.pendingK then 1 else 0) ≤ s.verified)
+
+private theorem inv_on (s : Conn) (ev : Ev) (h : Inv s)
+    (hev : ∀ eff, ev = .step eff true → hasSetKH eff = true → hasActivate eff = true) : Inv (s.on ev) := by
+  obtain ⟨h1, h2⟩ := h
+  cases ev with
+  | newkeys =>
+    unfold Conn.on
+    by_cases hd : s.dead = true
+    · simp only [hd, if_true]; exact ⟨h1, fun hh => by simp [hd] at hh⟩
+    · have hd' : s.dead = false := by simpa using hd
+      have h3 := h2 hd'
+      simp only [hd', Bool.false_eq_true, if_false]
+      by_cases hp : s.pendingK = true
+      · simp only [hp, if_true] at h3 ⊢
+        exact ⟨by simp; omega, fun _ => by simp; omega⟩
+      · simp only [hp, if_false]
+        exact ⟨h1, fun hh => by simp at hh⟩
+  | step eff ok =>
+    unfold Conn.on
+    by_cases hd : s.dead = true
+    · simp only [hd, if_true]; exact ⟨h1, fun hh => by simp [hd] at hh⟩
+    · have hd' : s.dead = false := by simpa using hd
+      have h3 := h2 hd'
+      simp only [hd', Bool.false_eq_true, if_false]
+      cases ok with
+      | false => simp only [Bool.false_eq_true, not_false_eq_true, if_true]; exact ⟨h1, fun hh => by simp at hh⟩
+      | true =>
+        simp only [not_true_eq_false, if_false]
+        cases hs : hasSetKH eff with
+        | false =>
+          simp only [Bool.or_false, Bool.false_and, Bool.false_eq_true, if_false, Nat.add_zero]
+          exact ⟨h1, fun _ => h3⟩
+        | true =>
+          have ha := hev eff rfl hs
+          simp only [ha, Bool.or_true, Bool.and_self, if_true]
+          refine ⟨by simp only []; omega, fun _ => ?_⟩
+          by_cases hp : s.pendingK = true <;> simp [hp] at h3 ⊢ <;> omega
+
+/-- EVERY message order: engine steps and NEWKEYS messages interleaved in any way (NEWKEYS before
+    any exchange, bare NEWKEYS after the client's own KEXINIT, two NEWKEYS in a row, …) — the number
+    of exchanges the client reports complete never exceeds the number of exchanges in which it
+    verified the server's signature; a NEWKEYS with no verified secret pending ends the session -/
+theorem completed_le_verified (evs : List Ev) (hcs : ClientSteps evs) :
+    (evs.foldl Conn.on {}).completed ≤ (evs.foldl Conn.on {}).verified := by
+  have key : ∀ (l : List Ev) (s : Conn), Inv s → (∀ eff, Ev.step eff true ∈ l → hasSetKH eff = true → hasActivate eff = true) →
+      Inv (l.foldl Conn.on s) := by
+    intro l
+    induction l with
+    | nil => intro s hs _; exact hs
+    | cons ev r ih =>
+      intro s hs hl
+      rw [List.foldl_cons]
+      apply ih
+      · exact inv_on s ev hs (fun eff he => hl eff (by rw [he]; exact List.mem_cons_self))
+      · intro eff hm; exact hl eff (List.mem_cons_of_mem _ hm)
+  exact (key evs {} ⟨Nat.le_refl _, fun _ => by simp⟩ hcs).1
+
+/-- a NEWKEYS that arrives with no secret pending kills the session (it is never counted) -/
+theorem bare_newkeys_ends_session (s : Conn) (ha : s.dead = false) (hp : s.pendingK = false) :
+    (s.on .newkeys).dead = true ∧ (s.on .newkeys).completed = s.completed := by
+  simp [Conn.on, ha, hp]
+
+/-- the hypothesis `ClientSteps` is what the engine theorems give: a client step that returns
+    normally and published a secret has the shape hash, `_set_K_H`, `_verify_key`, activate -/
+theorem verified_step_is_client_step (c : Env) (eff : List Effect) (h : Verified c eff) :
+    hasSetKH eff = true ∧ hasActivate eff = true := by
+  obtain ⟨_, _, _, _, he, _⟩ := h
+  rw [he]; simp [hasSetKH, hasActivate]
+
 /-! ## the session identifier is the first exchange hash, for any number of exchanges -/
 
 /-- `_set_K_H` never changes a session id that is set -/
